@@ -94,9 +94,12 @@ def main(argv=None):
     tasks.sort(key=lambda t: -t.cost)
     results = []
     task_of = {}
+    task_times = {}
     if args.jobs <= 1 or len(tasks) == 1:
         for t in tasks:
+            _t = time.time()
             rs = t.run()
+            task_times[t.label] = round(time.time() - _t, 2)
             for r in rs:
                 task_of[r.name] = t.label
             results += rs
@@ -106,7 +109,10 @@ def main(argv=None):
             for f in as_completed(futs):
                 t = futs[f]
                 try:
-                    rs = f.result()
+                    rs, dt = f.result()
+                    task_times[t.label] = round(dt, 2)
+                    if args.v:
+                        print(f'  done {t.label} {dt:.1f}s ({len(task_times)}/{len(tasks)})', file=sys.stderr, flush=True)
                 except Exception as e:  # worker died
                     rs = [oblig.Result(f'{t.label}/worker-died', ERROR, 'driver', 0.0, tuple(t.props), {'message': repr(e)})]
                 for r in rs:
@@ -188,6 +194,7 @@ def main(argv=None):
             'solver_seconds_total': round(sum(r.time for r in results), 3),
             'repo': repo_state(),
             'tasks': len(tasks),
+            'slowest_tasks_s': dict(sorted(task_times.items(), key=lambda kv: -kv[1])[:8]),
         },
         'assumptions': trusted.assumptions_for(prop),
         'wall_s': round(wall, 3),
